@@ -493,7 +493,7 @@ func c10Confirm(jobFile string, idx int, dir string) (*c10Res, error) {
 		}
 		st := stderr.String()
 		if strings.Contains(st, "panic:") || strings.Contains(st, "fatal error:") || strings.Contains(st, "[running]") {
-			r := &c10Res{Class: "panic", Stage: "child", Msg: firstLine(st)}
+			r := &c10Res{Class: "panic", Stage: "child", Msg: c10FirstLine(st)}
 			if i := strings.Index(st, "[running]"); i >= 0 {
 				r.Top, r.Wharf = c10Sites("panic(\n" + st[i:])
 			}
@@ -621,7 +621,7 @@ func c10RunShard(c *Ctx, jobs []*c10Job, shard int) ([]*c10Res, error) {
 			idx = n - 1
 			results = results[:idx]
 		}
-		first := &c10Res{Class: "panic", Stage: "child", Msg: firstLine(stderr.String())}
+		first := &c10Res{Class: "panic", Stage: "child", Msg: c10FirstLine(stderr.String())}
 		if killed {
 			first = &c10Res{Class: "hang", Stage: "child", Msg: "child made no progress and was killed"}
 		}
@@ -658,7 +658,7 @@ func c10RunShard(c *Ctx, jobs []*c10Job, shard int) ([]*c10Res, error) {
 	return results, nil
 }
 
-func firstLine(s string) string {
+func c10FirstLine(s string) string {
 	for _, l := range strings.Split(s, "\n") {
 		l = strings.TrimSpace(l)
 		if l != "" {
